@@ -2,6 +2,7 @@ package rules
 
 import (
 	"fmt"
+	"go/token"
 	"go/types"
 	"sort"
 	"strings"
@@ -95,6 +96,9 @@ func C12(c *Ctx) {
 	// Branch.Copy still shared guard sources between the versions of a spec; since repair F37 no source object is
 	// shared, the seed stopped being a breaking change, and the rule was withdrawn.)
 	c.R.Rule("C12-R9", "E1", "scripts get copies: machines that share a spec and a message cannot write each other's data through a script", 1)
+	c.R.Rule("C12-R11", "E1", "the single-loop host compiles a private copy of the specification it is given: machines never share a Spec that is compiled in place", 3)
+	c12OwnSpec(c, "C12-R11")
+	c.shareRule("C20", "C20-R8", "C12-R10", "the analysis and rendering tools only read the specification they are given (a compiled spec that is being rendered may be serving machines at the same time)")
 	if ea, _ := c.ecmaAnalysis(); ea != nil {
 		if c.scriptIsolation("C12-R9", ea, false) == 0 {
 			c.R.Break("C12-R9: no value handed to the script runtime found")
@@ -145,7 +149,8 @@ func C12(c *Ctx) {
 		b := pta.New(pta.Config{Prog: c.P, EnginePkgs: coreEngine, Entries: []*ssa.Function{setSpec, getSpec, specSpec}, Roots: roots, External: stdExternal})
 		b.Run()
 		c.noteAnalysis(b)
-		c.reportEffects("C12-R2", b, nil)
+		// (the swap itself is an atomic store into the updatable: that every access of that field is atomic is R3)
+		c.reportEffects("C12-R2", b, func(e pta.Effect) bool { return e.Site.Kind != "atomic update" })
 		for f := range b.Reached {
 			if ws, ok := writers[f]; ok {
 				c.R.Violate("C12-R2", "swap reaches writer "+fname(f), c.pos(ws[0]), fmt.Sprintf("%s stores into existing spec structure and is reachable from UpdatableSpec.SetSpec/Spec", fname(f)))
@@ -254,6 +259,9 @@ func c12Atomic(c *Ctx) {
 				case ssa.CallInstruction:
 					name := ssau.CalleeName(u)
 					ok := strings.HasPrefix(name, "sync/atomic.") && strings.HasSuffix(name, "Pointer") && len(u.Common().Args) > 0 && u.Common().Args[0] == ssa.Value(fa)
+					if (strings.HasPrefix(name, "(*sync/atomic.Pointer[") || strings.HasPrefix(name, "(*sync/atomic.Value).")) && len(u.Common().Args) > 0 && u.Common().Args[0] == ssa.Value(fa) {
+						ok = true // the field is an atomic box: its methods are the atomic accesses
+					}
 					c.R.Check(ok, "C12-R3", key, c.pos(r), "address consumed by "+name, "UpdatableSpec.spec is accessed by a non-atomic operation: "+name)
 				case *ssa.Store:
 					fresh := u.Addr == ssa.Value(fa) && localFresh(fa.X)
@@ -267,6 +275,33 @@ func c12Atomic(c *Ctx) {
 	}
 	if n == 0 {
 		c.R.Break("C12-R3: field UpdatableSpec.spec not found")
+	}
+	// an UpdatableSpec is used in place, never copied: a copy holds the version current when it was made (and copying
+	// is itself a plain read of the field)
+	ncopy := 0
+	for _, f := range c.P.AllFuncs {
+		if f.Blocks == nil || prog.PkgOf(f) == "" {
+			continue
+		}
+		isUS := func(t types.Type) bool {
+			n, ok := t.(*types.Named)
+			return ok && n.Obj().Name() == "UpdatableSpec" && n.Obj().Pkg() != nil && n.Obj().Pkg().Path() == prog.Abs("core")
+		}
+		for _, p := range f.Params {
+			if isUS(p.Type()) {
+				ncopy++
+				c.R.Violate("C12-R3", fmt.Sprintf("%s: takes an UpdatableSpec by value", fname(f)), c.P.Pos(f.Pos()), "an UpdatableSpec is passed (or used as a receiver) by value: the callee works on a copy made by a plain read, which never sees a later SetSpec")
+			}
+		}
+		ssau.Instrs(f, func(in ssa.Instruction) {
+			if u, ok := in.(*ssa.UnOp); ok && u.Op == token.MUL && isUS(u.Type()) {
+				ncopy++
+				c.R.Violate("C12-R3", fmt.Sprintf("%s: copies an UpdatableSpec", fname(f)), c.pos(in), "an UpdatableSpec is copied by a plain read of the whole value")
+			}
+		})
+	}
+	if ncopy == 0 {
+		c.R.Discharge("C12-R3", "UpdatableSpec is never copied", "core/specter.go", "no parameter, receiver or load of type core.UpdatableSpec by value in the repository")
 	}
 }
 
